@@ -4,6 +4,7 @@ import OV.Lemmas.C13Roundtrip
 import OV.Lemmas.C13Types
 import OV.Lemmas.C13Conflict
 import Std.Data.String.ToInt
+import OV.Lemmas.C13Values
 /-!
 # C13 — ONNX → Python (`proto2python`) → ONNX round-trips to an equivalent model
 
@@ -249,6 +250,69 @@ every integer.  (Finite floats rely on CPython's shortest-repr round trip, A-py,
 the harness on every generated constant.) -/
 theorem inline_const_repr_partial (i : Int) : (Int.repr i).toInt? = some i := Int.toInt?_repr i
 
+/-- **`inline_const_repr_int64`** — value rendering of inlined INT64 constants round-trips, for **every** value:
+the text `_get_const_repr` prints for an INT64 scalar (`str(np.int64(i))`) or an INT64 rank-1 tensor
+(`repr(nparray.tolist())`, any length — the exporter only uses lengths 1–4) is read back (`parse`: optional `-`
+and decimal digits; `[` items separated by `", "` `]`) as the same scalar, respectively the same list in the same
+order.  `render` is compared character by character with the real `_get_const_repr`, `parse` with Python's own
+reading of the text, on every run (`literal_stream`).  This removes the "scalars only" restriction of
+`inline_const_repr_partial`; what remains outside is FLOAT (CPython's shortest float `repr`, A-py). -/
+theorem inline_const_repr_int64 (v : OV.C13V.Lit) : OV.C13V.parse (OV.C13V.render v) = some v := by
+  cases v with
+  | scalar i => exact OV.C13V.parseL_scalar i
+  | list l =>
+    unfold OV.C13V.parse OV.C13V.render
+    rw [String.toList_ofList]
+    exact OV.C13V.parseL_list l
+
+/-- consequently two different INT64 constants are never printed as the same text -/
+theorem inline_const_repr_int64_injective (v w : OV.C13V.Lit) (h : OV.C13V.render v = OV.C13V.render w) : v = w := by
+  have hv := inline_const_repr_int64 v
+  rw [h, inline_const_repr_int64 w] at hv
+  exact (Option.some.inj hv).symm
+
+/-- **`_get_const_repr` on INT64 tensors, end to end**: whenever the exporter inlines an INT64 tensor with
+dimensions `dims` and elements `vals` as the text `s`, reading `s` back gives the scalar (rank 0) or the list of
+all elements in order (rank 1) — `constLitI64` says which. -/
+theorem inline_const_tensor_int64 (dims : List Nat) (vals : List Int) (s : String)
+    (h : OV.C13V.constReprI64 dims vals = some s) :
+    ∃ v, OV.C13V.constLitI64 dims vals = some v ∧ OV.C13V.parse s = some v := by
+  unfold OV.C13V.constReprI64 at h
+  cases hv : OV.C13V.constLitI64 dims vals with
+  | none => rw [hv] at h; cases h
+  | some v =>
+    rw [hv] at h
+    simp only [Option.map_some, Option.some.injEq] at h
+    exact ⟨v, rfl, h ▸ inline_const_repr_int64 v⟩
+
+/-- non-vacuity: a rank-1 tensor with negative and boundary values is inlined, and its text -/
+example : OV.C13V.constReprI64 [3] [-9223372036854775808, 0, 9223372036854775807]
+    = some "[-9223372036854775808, 0, 9223372036854775807]" := by decide
+example : OV.C13V.constReprI64 [] [-7] = some "-7" := by decide
+example : OV.C13V.constReprI64 [5] [1, 2, 3, 4, 5] = none ∧ OV.C13V.constReprI64 [0] [] = none
+    ∧ OV.C13V.constReprI64 [1, 1] [3] = none := by decide
+
+/-- the value-level model inlines exactly the INT64 tensors the exporter model `constRepr` inlines (dtype 7, all
+elements finite): same guard, for every shape and every element list of the right length -/
+theorem inline_const_int64_guard (dims : List Nat) (vals : List Int) (lit : String)
+    (hlen : vals.length = dims.foldl (· * ·) 1) :
+    (OV.C13V.constReprI64 dims vals).isSome = (constRepr (.tensor 7 dims true lit)).isSome := by
+  unfold OV.C13V.constReprI64 OV.C13V.constLitI64 constRepr
+  cases dims with
+  | nil =>
+    match vals, hlen with
+    | [v], _ => simp
+  | cons n t =>
+    cases t with
+    | nil =>
+      by_cases h0 : n = 0
+      · subst h0; simp
+      · have : ¬ (0 = n) := fun e => h0 e.symm
+        by_cases hn : n < 5 <;> simp [this, hn]
+    | cons a b => by_cases h0 : 0 ∈ n :: a :: b <;> simp [h0]
+
+example : ([4, -4] : List Int).length = ([2] : List Nat).foldl (· * ·) 1 := by decide
+
 /-- Why non-finite constants must not be printed with `str()` (pre-fix behaviour, C13-NANINF):
 `str(np.float32('nan'))`, `str(np.float32('inf'))` are the bare words `nan`, `inf` — Python identifiers and not
 keywords, hence names, not literals. -/
@@ -333,6 +397,102 @@ theorem inline_const_output_fixed :
       ⟨"g", none, [("", 18)],
        .mk ["x"] ["k"] [] 0 [.mk "Constant" "" "" [] ["k"] [("value", .tensor 1 [] true "#0")]]⟩).toOption
       = some ["deco ", "sig g(x|)", "L1 return #0"] := by
+  decide +kernel
+
+/-- C13-INLINE-SCOPE (fixed by e0cdb9e): the table of inlined constants is saved before and restored after each If
+branch.  `t` is an inlinable Constant in the then-branch and `Add(x, x)` in the else-branch (sibling scopes may define
+the same name); the else-branch now reads its own `t`: `r2 = Identity(t)` (pre-fix: `Identity(#0)`, the then-branch's
+literal — 1.0 instead of 6.0 for `c = False`, `x = 3`).  Must-pass regression case of the harness. -/
+theorem inline_const_sibling_scope_fixed :
+    (exportModel ⟨false, false, true, false⟩ 3 ⟨"g", none, [("", 18)],
+        .mk ["c", "x"] ["y"] [] 0
+          [.mk "If" "" "" ["c"] ["y"]
+             [("then_branch", .graph (.mk [] ["r1"] [] 0
+                 [.mk "Constant" "" "" [] ["t"] [("value", .tensor 1 [] true "#0")], .mk "Identity" "" "" ["t"] ["r1"] []])),
+              ("else_branch", .graph (.mk [] ["r2"] [] 0
+                 [.mk "Add" "" "" ["x", "x"] ["t"] [], .mk "Identity" "" "" ["t"] ["r2"] []]))]]⟩).toOption
+      = some ["deco ", "sig g(c,x|)", "L1 if c", "L2 call r1 = opset18.Identity(#0|)", "L2 assign y = r1", "L1 else",
+              "L2 call t = opset18.Add(x,x|)", "L2 call r2 = opset18.Identity(t|)", "L2 assign y = r2",
+              "L1 return y"] := by
+  decide +kernel
+
+/-- the same for Loop bodies (e0cdb9e): `t` is an inlined Constant in the first body and `Neg(s2)` in the second;
+the second body reads its own `t`. -/
+theorem inline_const_loop_body_scope_fixed :
+    (exportModel ⟨false, false, true, false⟩ 3 ⟨"g", none, [("", 18)],
+        .mk ["n", "x"] ["y"] [] 0
+          [.mk "Loop" "" "" ["n", "", "x"] ["a"]
+             [("body", .graph (.mk ["i", "ci", "s"] ["co", "so"] [] 0
+                 [.mk "Identity" "" "" ["ci"] ["co"] [],
+                  .mk "Constant" "" "" [] ["t"] [("value", .tensor 1 [] true "#0")],
+                  .mk "Add" "" "" ["s", "t"] ["so"] []]))],
+           .mk "Loop" "" "" ["n", "", "a"] ["y"]
+             [("body", .graph (.mk ["i2", "ci2", "s2"] ["co2", "so2"] [] 0
+                 [.mk "Identity" "" "" ["ci2"] ["co2"] [],
+                  .mk "Neg" "" "" ["s2"] ["t"] [],
+                  .mk "Add" "" "" ["s2", "t"] ["so2"] []]))]]⟩).toOption
+      = some ["deco ", "sig g(n,x|)", "L1 assign s = x", "L1 for i n", "L2 call so = opset18.Add(s,#0|)",
+              "L2 assign s = so", "L1 assign a = s", "L1 assign s2 = a", "L1 for i2 n", "L2 call t = opset18.Neg(s2|)",
+              "L2 call so2 = opset18.Add(s2,t|)", "L2 assign s2 = so2", "L1 assign y = s2", "L1 return y"] := by
+  decide +kernel
+
+/-- **`if_constants_scoped`** (e0cdb9e, for every If node): whatever the two branches inline, the table of inlined
+constants after `_translate_if` is the table before it — for every option tuple, every node translator `recIn` (any
+nesting), every state, and also when the If is dropped as dead.  Hence no constant of a branch is visible in the
+other branch (the else-branch starts from the saved table) or after the statement. -/
+theorem if_constants_scoped (o : Opts) (recIn : Node → St → R) (n : Node) (indent : Nat) (st : St)
+    (lines : List String) (st' : St) (h : translateIf o recIn n indent st = .ok (lines, st')) :
+    st'.constants = st.constants := by
+  unfold translateIf at h
+  simp only at h
+  split at h
+  · split at h
+    · cases h
+    · split at h
+      · cases h
+      · split at h
+        all_goals
+          split at h <;>
+          · simp only [Except.ok.injEq, Prod.mk.injEq] at h
+            rw [← h.2]; exact OV.C13.translateVarRef_constants o st _
+  · cases h
+
+/-- non-vacuity of `if_constants_scoped`: an If whose then-branch inlines a constant is translated (not refused), from
+a state that already holds a constant -/
+example :
+    ((translateIf ⟨false, false, true, false⟩ (translateNode ⟨false, false, true, false⟩ [("", 18)] 2 2)
+        (.mk "If" "" "" ["c"] ["y"]
+          [("then_branch", .graph (.mk [] ["t"] [] 0 [.mk "Constant" "" "" [] ["t"] [("value", .tensor 1 [] true "#0")]])),
+           ("else_branch", .graph (.mk [] ["r2"] [] 0 [.mk "Neg" "" "" ["x"] ["r2"] []]))])
+        1 { constants := [("k", "#9")], namesRead := ["y"] }).toOption.map (fun r => (r.1.length, r.2.constants)))
+      = some (5, [("k", "#9")]) := by decide +kernel
+
+/-- **`function_constants_cleared`** (e0cdb9e): `_translate_function` starts every function from an empty table of
+inlined constants, whatever was translated before (for every start state) -/
+theorem function_constants_cleared (o : Opts) (d : Nat) (f : FunctionP) (st : St) :
+    (funcState o d f st).constants = [] := by
+  unfold funcState
+  simp only [OV.C13.translateVars_constants]
+
+/-- C13-READ-SCOPE (open): `_names_read` is one flat set of ONNX names.  The inner If of the then-branch is dead (its
+result `a` is read nowhere in its scope), but the else-branch defines and reads its own `a` (sibling scopes may
+define the same name), so the dead If is printed — `a` assigned in both inner branches and never read before the
+block ends — and the converter refuses the text. -/
+theorem read_scope_sibling_witness :
+    (exportModel ⟨false, false, false, false⟩ 4 ⟨"g", none, [("", 18)],
+        .mk ["c", "x"] ["y"] [] 0
+          [.mk "If" "" "" ["c"] ["y"]
+             [("then_branch", .graph (.mk [] ["r1"] [] 0
+                 [.mk "If" "" "" ["c"] ["a"]
+                    [("then_branch", .graph (.mk [] ["k1"] [] 0 [.mk "Neg" "" "" ["x"] ["k1"] []])),
+                     ("else_branch", .graph (.mk [] ["k2"] [] 0 [.mk "Abs" "" "" ["x"] ["k2"] []]))],
+                  .mk "Relu" "" "" ["x"] ["r1"] []])),
+              ("else_branch", .graph (.mk [] ["r2"] [] 0
+                 [.mk "Tanh" "" "" ["x"] ["a"] [], .mk "Identity" "" "" ["a"] ["r2"] []]))]]⟩).toOption
+      = some ["deco ", "sig g(c,x|)", "L1 if c", "L2 if c", "L3 call k1 = opset18.Neg(x|)", "L3 assign a = k1", "L2 else",
+              "L3 call k2 = opset18.Abs(x|)", "L3 assign a = k2", "L2 call r1 = opset18.Relu(x|)", "L2 assign y = r1",
+              "L1 else", "L2 call a = opset18.Tanh(x|)", "L2 call r2 = opset18.Identity(a|)", "L2 assign y = r2",
+              "L1 return y"] := by
   decide +kernel
 
 /-- C13-OPSET-NAME (fixed by 7e6d802): the module-level names of the generated text (opset aliases, `np`,
